@@ -164,6 +164,8 @@ def check(ctx, rep):
     prog = ctx.prog
     rep.rule("R09a", "a scripted gophermap gives exactly one entry per line, in file order, with the documented meaning of each line shape "
              "(evaluated in three directories, LF and CRLF line ends)", floor=3)
+    rep.rule("R09d", "a directory that holds a gophermap, and a regular file named *.gophermap, are rendered from the gophermap - whatever the "
+             "directory is called; nothing else is", floor=1)
     rep.rule("R09b", "getinfoentry(text): an informational entry of type i named text", floor=1)
     rep.rule("R09c", "getdirlist() hands every protocol the list prepare() built", floor=1)
     H = ctx.cls("handlers.gophermap.BuckGophermapHandler")
@@ -194,6 +196,55 @@ def check(ctx, rep):
                 if len(problems) >= 3:
                     break
         rep.add("R09a", label, not problems, ctx.where(prep), "; ".join(problems[:3]), key=f"R09a|{selector}|{line_end!r}")
+
+    # ------------------------------------------------------------------ R09d
+    import os as _os
+    import stat as _stat
+
+    from ..paths import PathLimit, truth
+
+    can = prog.resolve_method(H, "canhandlerequest")
+    if can is None:
+        rep.fail("R09d", "BuckGophermapHandler.canhandlerequest", detail="gophermap handler test not found")
+    else:
+        DIRM, REGM = _stat.S_IFDIR | 0o755, _stat.S_IFREG | 0o644
+        scenarios = [("/docs", DIRM, True, True, "a directory holding a gophermap"), ("/docs", DIRM, False, False, "a directory without gophermap"),
+                     ("/docs/menu.gophermap", REGM, False, True, "a regular file named *.gophermap"),
+                     ("/atlas.gophermap", DIRM, True, True, "a directory named *.gophermap that holds a gophermap"),
+                     ("/atlas.gophermap", DIRM, False, False, "a directory named *.gophermap without gophermap"),
+                     ("/docs/a.txt", REGM, False, False, "an ordinary file"), ("/", DIRM, True, True, "the root with a gophermap"),
+                     ("/gone", None, False, False, "something that does not exist")]
+        problems, n = [], 0
+        for sel, mode, has_map, want, label in scenarios:
+            def cvd(call, target, st, _sel=sel, _has=has_map):
+                f = call.func
+                if isinstance(f, ast.Attribute) and f.attr in ("isfile", "exists") and "vfs" in norm(f.value):
+                    a = holder_d["w"].cur_args or []
+                    if a and a[0].kind == "const":
+                        base = "" if _sel == "/" else _sel
+                        return Const(bool(_has and a[0].value in (base + "/gophermap", _sel + "/gophermap")))
+                    return None
+                if isinstance(f, ast.Attribute) and f.attr == "isdir" and "vfs" in norm(f.value):
+                    return Const(mode is not None and _stat.S_ISDIR(mode))
+                return None
+
+            holder_d = {}
+            facts = {"self.selector": Const(sel), "self.statresult": Const(_os.stat_result((mode, 1, 1, 1, 0, 0, 10, 0, 0, 0)) if mode is not None else None)}
+            wd = Walker(prog, ctx.resolver, call_value=cvd, assumptions=dict(facts), exact_loops=True, unroll=4, max_paths=4000,
+                        inline=lambda fn, t, d: d < 3 and (t.bound_cls is not None or (fn.cls is None and fn.module is can.module)))
+            holder_d["w"] = wd
+            try:
+                outs = {truth(p.value) if p.kind == "return" and p.value is not None else ("raise" if p.kind == "raise" else False) for p in wd.run(can, H, facts=dict(facts))}
+            except PathLimit:
+                outs = {None}
+            if len(outs) != 1 or next(iter(outs)) not in (True, False):
+                continue
+            n += 1
+            got = next(iter(outs))
+            if got is not want:
+                problems.append(f"{label} ({sel!r}) is {'taken' if got else 'not taken'} by the gophermap handler")
+        rep.add("R09d", f"{can.qualname}: which requests are rendered from a gophermap [{n} of {len(scenarios)} evaluated]", not problems and n >= 5, ctx.where(can),
+                "; ".join(problems[:3]) if problems else ("" if n >= 5 else "the walker could not follow the test"), key="R09d|canhandlerequest", nontrivial=n >= 5)
 
     # ------------------------------------------------------------------ R09b
     gi = ctx.func("gopherentry.getinfoentry")
